@@ -75,8 +75,24 @@ func setup(args map[string]string, tier string) error {
 		{name: "full@0.8+trace", docs: docs, thr: 0.8, traced: true},
 		{name: "small@0.7+trace", docs: small, thr: 0.7, traced: true},
 	}
+	// an integer updated through sync/atomic is legitimate shared state (and
+	// holds no pointers): make its page writable instead of trapping the store
+	simrt.OnAtomicWrite = func(addr uintptr) {
+		for _, w := range worlds {
+			if w.arena != nil && w.arena.Contains(addr) {
+				w.arena.Thaw(addr)
+			}
+		}
+		for _, a := range coldArenas {
+			if a.Contains(addr) {
+				a.Thaw(addr)
+			}
+		}
+	}
 	return selfTest()
 }
+
+var coldArenas []*freeze.Arena
 
 // get builds and freezes a world on first use.
 func (w *world) get() *classifier.Classifier {
@@ -272,7 +288,11 @@ func runAttempt(c *hlib.Ctx, s *choice.Stream, freezeClock bool) (*hlib.Run, int
 	if cold {
 		cw := &world{name: w.name + "(cold)", docs: w.docs, thr: w.thr, traced: w.traced}
 		cl = cw.get()
-		defer cw.arena.Release()
+		coldArenas = append(coldArenas, cw.arena)
+		defer func() {
+			coldArenas = coldArenas[:len(coldArenas)-1]
+			cw.arena.Release()
+		}()
 		w = cw
 	}
 
